@@ -9,14 +9,14 @@ CONSTANTS Fam, MaxSeq
 Fld(s, c) == [k |-> "fld", src |-> s, n |-> c]
 Cmp(l, r) == [k |-> "bin", op |-> "=", l |-> l, r |-> r]
 Num(n) == [k |-> "num", n |-> n]
-CritSrcs == {"T1", "T2", "T5", "A3", "S4", "T1b", "T1f", "A1", "Q6", "C7", "D1", "D2"}
+CritSrcs == {"T1", "T2", "T5", "A3", "S4", "T1b", "T1f", "A1", "Q6", "C7", "D1", "D2", "U8"}
 Crits == {Cmp(Fld(x, "a"), Fld(y, "b")) : x, y \in CritSrcs}
          \cup {Cmp([k |-> "call", f |-> "UPPER", args |-> <<Fld(x, "a")>>], Fld(y, "b")) : x, y \in CritSrcs}
          \cup {[k |-> "bin", op |-> "AND", l |-> Cmp(Fld(x, "a"), Num("1")), r |-> Cmp(Fld(y, "b"), Num("2"))] : x, y \in {"T1", "T2", "A3", "T1f", "C7"}}
          \* the SAME column name on both sides (references that differ in nothing but their table)
          \cup {Cmp(Fld(x, "a"), Fld(y, "a")) : x, y \in {"D1", "D2", "T1", "T1b", "A1", "S4", "T5"}}
-Items == {"T2", "T5", "A3", "A1", "T1b", "Q6", "C7", "D1"}
-Bases == {"T1", "A3", "S4", "T1f"}
+Items == {"T2", "T5", "A3", "A1", "T1b", "Q6", "C7", "D1", "U8"}
+Bases == {"T1", "A3", "S4", "T1f", "U8"}
 J(item, crit) == [m |-> "join", item |-> item, how |-> "", kind |-> "on", crit |-> crit, cols |-> <<>>]
 
 Prior(f) == {<<>>, <<J("T2", Cmp(Fld("T2", "a"), Fld(f, "a")))>>}
@@ -39,7 +39,8 @@ Misc ==
   \cup { [fam |-> "case", whens |-> w, els |-> e] : w \in 0..2, e \in BOOLEAN }
   \cup { [fam |-> "returning", kind |-> k, what |-> x] : k \in {"select", "insert", "update", "delete"},
                                                        x \in {"own", "foreign", "str", "star", "const", "agg", "joined",
-                                                             "own-star", "foreign-star", "joined-star", "own-expr", "foreign-expr", "own-case", "foreign-case", "mixed-expr"} }
+                                                             "own-star", "foreign-star", "joined-star", "own-expr", "foreign-expr", "own-case", "foreign-case", "mixed-expr",
+                                                             "foreign-func", "foreign-func-nested", "own-tuple", "foreign-tuple"} }
   \cup { [fam |-> "ddl", calls |-> s] : s \in UNION {[1..n -> {"create_table", "columns", "as_select", "primary_key", "unique", "drop_table", "if_exists"}] : n \in 1..3} }
   \cup { [fam |-> "temporal", calls |-> s] : s \in UNION {[1..n -> {"for_", "for_portion"}] : n \in 1..2} }
   \cup { [fam |-> "rollup", calls |-> s] : s \in UNION {[1..n -> {"groupby", "rollup", "rollup_mysql", "rollup_mysql_empty"}] : n \in 1..3} }
@@ -80,10 +81,12 @@ MiscExpect(p) ==
     CASE p.fam = "setop" -> [calls |-> <<>>, render |-> IF p.n[2] # p.n[1] \/ (p.n[3] # 0 /\ p.n[3] # p.n[1]) THEN "SetOperationException" ELSE ""]
       [] p.fam = "case" -> [calls |-> <<>>, render |-> IF p.whens = 0 THEN "CaseException" ELSE ""]
       [] p.fam = "returning" ->
-            [calls |-> << IF p.what = "agg" THEN "QueryException"
+            \* (a scalar function over the statement's OWN table is not generated: the library refuses every Function term, the property only
+            \*  demands that aggregates and foreign tables are refused - either outcome for LOWER(own.col) is within the property)
+            [calls |-> << IF p.what \in {"agg", "foreign-func", "foreign-func-nested"} THEN "QueryException"
                           ELSE IF p.kind = "select" THEN "QueryException"
                           \* a term that refers to a table which is neither the statement's own nor a FROM / joined one
-                          ELSE IF p.what \in {"foreign", "foreign-star", "foreign-expr", "foreign-case", "mixed-expr"} THEN "QueryException" ELSE "" >>,
+                          ELSE IF p.what \in {"foreign", "foreign-star", "foreign-expr", "foreign-case", "mixed-expr", "foreign-tuple"} THEN "QueryException" ELSE "" >>,
              render |-> ""]
       [] p.fam = "ddl" -> [calls |-> DdlWalk(p.calls, 1, [created |-> FALSE, cols |-> FALSE, assel |-> FALSE, pk |-> FALSE, dropped |-> FALSE]), render |-> ""]
       [] p.fam = "temporal" -> [calls |-> TempWalk(p.calls, 1, FALSE), render |-> ""]
